@@ -81,6 +81,8 @@ def _probes(ctx):
 def run(ctx):
     session.run_sessions(ctx, ctx.scale(220, 5000), ctx.scale(12, 30), ['reparse'], syntax_preserving=True, auto_claim_only=True)
     slicegrid.run(ctx, ['reparse'], syntax_preserving=True)
+    import slotgrid
+    slotgrid.run(ctx, ['reparse'])
     _classify(ctx)
     _probes(ctx)
 
